@@ -13,6 +13,28 @@ LEVEL = 'model_checking'
 CLAUSES = ['P:CleanExact', 'P:DeleteComplete', 'P:ConfinedFamily', 'P:ConfinedCommand', 'P:ConfinedNamed', 'P:OthersUntouched', 'P:GcWritesNothing']
 
 
+def mass_orphans(run, seed, nbytes=720_000):
+    """more than ten thousand unreferenced chunks in one clean (what an interrupted backup of a few GB leaves at default chunk sizes):
+    batching, paging and progress code paths that small scenarios never enter. Thorough tier only (the trace has > 20 000 events)."""
+    from .. import harness, repodrv
+    with harness.scratch() as d:
+        s = repodrv.Session('shared', d, seed=seed, min_length=64, max_length=64)
+        keep = s.write_file('keep.bin', s.rng.randbytes(3000))
+        s.snapshot('a', [keep])
+        big = s.write_file('big.bin', s.rng.randbytes(nbytes))
+        o = s.snapshot('b', [big])
+        s.sync_defs()
+        sid = max(s.sids.values())
+        loc = [l for l, i in s.sids.items() if i == sid][0]
+        # the snapshot object disappears (a delete interrupted after its first phase): everything it referenced alone is garbage now
+        s.store.objs.pop(loc)
+        s._marker('out', {'a': 'tamper', 'p': 1, 'kind': 'delete', 'area': 'snap', 's': sid, 'gone': True, 'name': loc[:40]}, 'out')
+        o2 = s.clean('a')
+        desc = ['snapshot(a, 3 kB) ; snapshot(b, %d bytes in 64-byte chunks)->%s ; snapshot object removed ; clean(a)->%s' % (nbytes, o.etype, o2.etype)]
+        run.case(('mass-orphans', seed, nbytes))
+        return s.trace(extra={'history': desc, 'opts': {'orphans': nbytes // 64}})
+
+
 def main(run):
     quick = run.tier == 'quick'
     rc.design(run, ['mixed', 'indep'] if quick else ['plain', 'same', 'shared', 'indep', 'mixed'],
@@ -36,6 +58,8 @@ def main(run):
     # ... and over the REAL B2 adapter: names have versions there (two workers storing one chunk create two), delete must remove the name
     traces += rc.histories(run, ['plain', 'shared', 'mixed'] if quick else rc.ALL_GRAPHS, range(run.seed * 100 + 95, run.seed * 100 + 95 + (2 if quick else 8)),
                            14 if quick else 25, reads=False, p_clean=0.3, p_delete=0.25, flavour='b2', foreign=foreign)
+    if not quick:
+        traces.append(mass_orphans(run, run.seed + 808))
     rc.validate(run, traces, CLAUSES, label='c08.histories')
     run.coverage['rule'] = ('a case is one command history (key graph x seed, with interrupted commands leaving orphans) or one replayed TLC '
                             'behaviour; non-trivial = more than 10 backend events / more than 2 replayed commands')
